@@ -75,8 +75,13 @@ def run(rep):
     reqs = []
     for op in ("repack", "pack_loose", "gc") + (("git-repack",) if True else ()):
         for warm in (True, False):
+            # all schedules with one pre-emption first (one actor runs to completion between two calls of the other:
+            # a few hundred), then a capped share of those with two
             reqs.append({"fn": "concurrent", "seed": 11, "n": 4, "layout": LAYOUTS[1], "op": op, "warm": warm, "reads": 4,
-                         "max_runs": (40 if op == "git-repack" else 150) if not thorough else 3000, "preempt": 2 if not thorough else 3})
+                         "max_runs": (60 if op == "git-repack" else 600) if not thorough else 5000, "preempt": 1})
+            if op != "git-repack" or thorough:
+                reqs.append({"fn": "concurrent", "seed": 12, "n": 4, "layout": LAYOUTS[1], "op": op, "warm": warm, "reads": 4,
+                             "max_runs": 120 if not thorough else 3000, "preempt": 2 if not thorough else 3})
     nruns = 0
     for q, r in zip(reqs, impl.run(reqs)):
         if "runs" not in r:
